@@ -371,6 +371,9 @@ type Call struct {
 	Err       string   `json:"err,omitempty"`
 	Injected  bool     `json:"injected,omitempty"`
 	Claims    []string `json:"claims,omitempty"` // DRA devices handed to the pod: claim=driver/pool/device
+	// Commit numbers the Statement.Commit (1, 2, ... within the cycle) that emitted the call; 0 = emitted outside
+	// any commit. Calls of one commit are one decision; stamped through the build-tag guarded statement hook.
+	Commit int `json:"commit,omitempty"`
 }
 
 // claimDevices renders the devices of a task's resource claim allocations, sorted.
@@ -412,6 +415,8 @@ type recordingCache struct {
 	calls         []Call
 	failEvictCall int
 	evictCalls    int
+	commitSeq     int // commits seen in this cycle
+	curCommit     int // the commit that is executing now (0 = none)
 }
 
 func (r *recordingCache) Bind(p *pod_info.PodInfo, hostname string, ann map[string]string) error {
@@ -421,6 +426,7 @@ func (r *recordingCache) Bind(p *pod_info.PodInfo, hostname string, ann map[stri
 		c.Err = err.Error()
 	}
 	r.mu.Lock()
+	c.Commit = r.curCommit
 	r.calls = append(r.calls, c)
 	r.mu.Unlock()
 	return err
@@ -446,6 +452,7 @@ func (r *recordingCache) Evict(pod *v1.Pod, job *podgroup_info.PodGroupInfo, md 
 		c.Err = err.Error()
 	}
 	r.mu.Lock()
+	c.Commit = r.curCommit
 	r.calls = append(r.calls, c)
 	r.mu.Unlock()
 	return err
@@ -453,7 +460,7 @@ func (r *recordingCache) Evict(pod *v1.Pod, job *podgroup_info.PodGroupInfo, md 
 
 func (r *recordingCache) TaskPipelined(p *pod_info.PodInfo, msg string) {
 	r.mu.Lock()
-	r.calls = append(r.calls, Call{Kind: "pipeline", Pod: p.Name, Node: p.NodeName, Groups: append([]string(nil), p.GPUGroups...), Claims: claimDevices(p)})
+	r.calls = append(r.calls, Call{Kind: "pipeline", Pod: p.Name, Node: p.NodeName, Groups: append([]string(nil), p.GPUGroups...), Claims: claimDevices(p), Commit: r.curCommit})
 	r.mu.Unlock()
 	r.Cache.TaskPipelined(p, msg)
 }
@@ -480,6 +487,8 @@ type CycleRecord struct {
 type Hooks struct {
 	AfterOpen   func(ssn *framework.Session, cycle int)
 	BeforeClose func(ssn *framework.Session, cycle int)
+	// Statement receives the statement life-cycle events of the session (the engine owns framework.VerifStatementHook)
+	Statement func(event string, s *framework.Statement, arg int)
 }
 
 // QShare is what the session reports for a queue: [cpu milli, memory bytes, gpus].
@@ -602,6 +611,23 @@ func RunCycle(s *Store, cfg *Config, sc *CycleScript, idx int, opt *Options) *Cy
 			if opt != nil && opt.Hooks.AfterOpen != nil {
 				opt.Hooks.AfterOpen(ssn, idx)
 			}
+			framework.VerifStatementHook = func(event string, st *framework.Statement, arg int) {
+				switch event {
+				case "commit-begin":
+					rc.mu.Lock()
+					rc.commitSeq++
+					rc.curCommit = rc.commitSeq
+					rc.mu.Unlock()
+				case "commit-end":
+					rc.mu.Lock()
+					rc.curCommit = 0
+					rc.mu.Unlock()
+				}
+				if opt != nil && opt.Hooks.Statement != nil {
+					opt.Hooks.Statement(event, st, arg)
+				}
+			}
+			defer func() { framework.VerifStatementHook = nil }()
 			acts, _ := conf_util.GetActionsFromConfig(schedConf)
 			for _, a := range acts {
 				rc.mu.Lock()
